@@ -48,6 +48,15 @@ def walk(fn_full, parse, st0, succ, rate_unit, horizon, max_exp, max_leaves=6000
             problems.append({"kind": "exception:%s" % type(l.error).__name__, "cls": cls,
                              "detail": "raised %r" % (l.error,), "script": l.script})
             return True
+        # every selection of a candidate belongs to an event with its own waiting time: a run that selects more often
+        # than it draws waiting times lets (null) events happen without advancing the clock.  Checked on every path,
+        # so that an event loop which spins is recognised on the first leaf and not after enumerating its whole tree.
+        nsel = sum(1 for t in l.tape if t[0] == "choice")
+        nexp = sum(1 for t in l.tape if t[0] == "exp")
+        if nsel > nexp + 2 and nsel > 2 * (nexp + 1):
+            problems.append({"kind": "exception:Runaway", "cls": cls, "script": l.script,
+                             "detail": "the run made %d selections but drew only %d waiting times: events that do not advance the clock" % (nsel, nexp)})
+            return True
         ev, pr = parse(l)
         for p in pr:
             p.setdefault("cls", cls)
